@@ -15,7 +15,7 @@ if ! git -C "$base/repo" apply "$patch"; then echo "runmut: patch does not apply
 all=0
 for id in "$@"; do
   out="$base/out-$id.txt"
-  ZSIM_REPO="$base/repo" ZSIM_VERIF="$base/verif" /verif/check "$id" "${TIER:-quick}" >"$out" 2>&1
+  ZSIM_REPO="$base/repo" ZSIM_VERIF="$base/verif" /verif/check "$id" "${TIER:-quick}" ${EXTRA:-} >"$out" 2>&1
   rc=$?
   nv=$(grep -c '^VIOLATION' "$out")
   first=$(grep -m1 '^zsim: violation' "$out" | cut -c1-260)
